@@ -436,6 +436,7 @@ class Ctx:
                        what=f"{b['kind']} no longer checks: {b['name']}: {b['detail']}")
     n_obl = len(self.obligations)
     n_ok = sum(1 for o in self.obligations if o['ok'])
+    self.notes.append('provenance: ' + _provenance())
     ev = dict(
         property_id=self.pid, tier=self.tier, seed=self.seed, level='proof',
         coverage=dict(
@@ -471,6 +472,24 @@ class Ctx:
     print(f"DETAIL {violation['what']}"[:1500])
     print(f'VIOLATION property={self.pid} replay={rp}{tail}')
     return 1
+
+
+def _git(path, *args):
+  try:
+    p = subprocess.run(['git', '-C', path] + list(args), capture_output=True, text=True, timeout=20)
+    return p.stdout.strip() if p.returncode == 0 else ''
+  except Exception:  # pylint: disable=broad-except
+    return ''
+
+
+def _provenance():
+  """which trees this run looked at: commit of /verif and of the checked repository, and whether either is dirty"""
+  parts = []
+  for name, path in (('verif', VERIF), ('repo', REPO)):
+    head = _git(path, 'rev-parse', '--short', 'HEAD') or 'unknown'
+    dirty = bool(_git(path, 'status', '--porcelain', '--untracked-files=no', '--', '.', ':!evidence', ':!lean/DinoGen'))
+    parts.append(f'{name}={path}@{head}' + ('+uncommitted-changes' if dirty else ''))
+  return ', '.join(parts) + time.strftime(', written %Y-%m-%dT%H:%M:%SZ', time.gmtime())
 
 
 def _short(x, n=300):
